@@ -504,6 +504,15 @@ func (ex *Exec) rangeIter(x Value) Value {
 		it := &RangeIter{m: x}
 		if x != nil {
 			it.order = append([]*mapEnt{}, x.ents...)
+			if len(it.order) > 1 && ex.inInit == 0 {
+				idx := ex.mapRangeCount
+				ex.mapRangeCount++
+				if ex.flipMode == 1 || (ex.flipMode == 2 && idx == ex.flipSite) {
+					for i, j := 0, len(it.order)-1; i < j; i, j = i+1, j-1 {
+						it.order[i], it.order[j] = it.order[j], it.order[i]
+					}
+				}
+			}
 		}
 		return it
 	case Str:
